@@ -15,6 +15,10 @@
 (*    predicate) x deep.                                                   *)
 (* "truth": every boolean term of depth <= 1 over all 43 atoms and of      *)
 (*    depth <= 2 over a reduced atom set; the truth table over 10 values.  *)
+(* "reuse": predicate objects that serve as operands of a further          *)
+(*    combination and are evaluated afterwards (see ReuseSteps).           *)
+(* "fold": case-insensitive predicates on text with non-ASCII and          *)
+(*    special-casing characters (truth tables and one-level queries).      *)
 (***************************************************************************)
 EXTENDS Query, Json
 
@@ -116,6 +120,48 @@ Pairs(b, U) == {And(b, u) : u \in U} \cup {Or(b, u) : u \in U}
 Succ(b) == {b, Not(b)} \cup (IF b \in Atoms THEN Pairs(b, Atoms) ELSE {}) \cup (IF b \in Grow(Small) THEN Pairs(b, Grow(Small)) ELSE {})
 Values == << X, BX, SV(<<cy>>), SV(<<cx, cy>>), SV(<<cy, cX>>), IV(1), IV(2), SV(<<ca>>), SV(<<cA>>), SV(<<>>) >>
 
+(* ---- part "reuse": predicate OBJECTS that serve as operands of further combinations ----       *)
+(* a base object (atom, negation, conjunction, disjunction) x one further combination (~base, base & u, *)
+(* u & base, base | u, u | base); the driver evaluates the base object before and AFTER the combination *)
+(* was built from it, stand-alone and as the name / attribute predicate of a query                      *)
+RAtoms == { Atom("eq", FALSE, X), Atom("eq", TRUE, BX), Atom("lt", FALSE, IV(2)), Atom("startswith", FALSE, SV(<<ca>>)),
+            Atom("contains", TRUE, SV(<<cy>>)), Atom("boom", FALSE, IV(0)) }
+ReuseBases  == Grow(RAtoms)
+ReuseOthers == RAtoms \cup {Not(a) : a \in RAtoms}
+ReuseSteps  == {[op |-> "not", side |-> "left", other |-> Atom("eq", FALSE, X)]}
+               \cup {[op |-> o, side |-> sd, other |-> u] : o \in {"and", "or"}, sd \in {"left", "right"}, u \in ReuseOthers}
+ReuseForest == << [d |-> 0, n |-> <<>>, a |-> <<>>],
+                  [d |-> 1, n |-> <<ca>>, a |-> <<SV(<<cx>>)>>], [d |-> 2, n |-> <<cA>>, a |-> <<SV(<<cX>>), IV(2)>>],
+                  [d |-> 2, n |-> <<cb>>, a |-> <<IV(1)>>], [d |-> 1, n |-> <<cx>>, a |-> <<SV(<<cy>>), SV(<<cx>>)>>],
+                  [d |-> 1, n |-> <<cy, cX>>, a |-> <<SV(<<cx, cy>>)>>], [d |-> 1, n |-> <<cb>>, a |-> <<IV(2), IV(1)>>],
+                  [d |-> 2, n |-> <<cX>>, a |-> <<>>], [d |-> 1, n |-> <<ca, cy>>, a |-> <<SV(<<cy, cX>>), IV(3)>>] >>
+
+(* ---- part "fold": case-insensitive predicates on text beyond ASCII, including the special-casing ----    *)
+(* characters on which lower-casing and case folding differ: truth tables of every term of depth <= 1 over  *)
+(* FoldAtoms, and small forests of FoldKinds x one-level queries with such name / attribute predicates      *)
+css == 223  cSS == 7838  cs == 115  cS == 83  ce == 233  cE == 201  csf == 962  csg == 963  cfi == 64257  cf == 102  cci == 105
+FoldArgs  == {SV(<<css>>), SV(<<cS, cS>>), SV(<<cE>>), SV(<<csf>>), SV(<<cfi>>)}
+FoldAtoms == {Atom(g, TRUE, a) : g \in Caseless, a \in FoldArgs}
+             \cup {Atom("eq", FALSE, SV(<<css>>)), Atom("ge", FALSE, SV(<<ce>>))}
+FoldValues == << SV(<<css>>), SV(<<cs, cs>>), SV(<<cS, cS>>), SV(<<cSS>>), SV(<<cE>>), SV(<<ce>>), SV(<<csf>>), SV(<<csg>>),
+                 SV(<<cfi>>), SV(<<cf, cci>>), SV(<<ca, css>>), SV(<<cA, cS, cS>>), SV(<<ce, csf, cx>>), IV(1), X >>
+FoldKinds == { [n |-> <<css>>, a |-> <<SV(<<cE>>)>>], [n |-> <<cS, cS>>, a |-> <<SV(<<css>>), IV(1)>>],
+               [n |-> <<cs, cs>>, a |-> <<SV(<<cf, cci>>)>>], [n |-> <<ce, csf>>, a |-> <<SV(<<cfi>>), SV(<<cs, cs>>)>>],
+               [n |-> <<cE, csg>>, a |-> <<>>] }
+FoldForests ==
+    UNION {{[i \in 1..n |-> IF i = 1 THEN [d |-> 0, n |-> <<>>, a |-> <<>>] ELSE [d |-> s[i], n |-> k[i].n, a |-> k[i].a]]
+             : s \in DepthSeqs(n, FALSE), k \in [1..n -> FoldKinds]} : n \in 2..3}
+FoldNameTerms == { Atom("eq", TRUE, SV(<<css>>)), Atom("eq", TRUE, SV(<<cS, cS>>)), Not(Atom("eq", TRUE, SV(<<css>>))),
+                   Atom("startswith", TRUE, SV(<<cE>>)), Atom("endswith", TRUE, SV(<<csf>>)),
+                   And(Not(Atom("eq", TRUE, SV(<<cs, cs>>))), Not(Atom("eq", FALSE, SV(<<ce, csf>>)))) }
+FoldAttrTerms == { Atom("eq", TRUE, SV(<<css>>)), Atom("eq", TRUE, SV(<<cfi>>)), Not(Atom("eq", TRUE, SV(<<cS, cS>>))),
+                   Atom("contains", TRUE, SV(<<cE>>)), Or(Atom("eq", TRUE, SV(<<cf, cci>>)), Atom("lt", FALSE, IV(2))) }
+FoldLevels == {Level("term", <<>>, t, "none", <<>>) : t \in FoldNameTerms}
+              \cup {Level("any", <<>>, NoTerm, "any", <<ETerm(t)>>) : t \in FoldAttrTerms}
+              \cup {Level("lit", <<cs, cs>>, NoTerm, "all", <<ETerm(Atom("eq", TRUE, SV(<<cfi>>)))>>),
+                    Level("any", <<>>, NoTerm, "nany", <<ETerm(Atom("eq", TRUE, SV(<<css>>)))>>)}
+FoldQueries == {[qs |-> <<l>>, deep |-> d, roots |-> FALSE] : l \in FoldLevels, d \in BOOLEAN}
+
 (* ---- states ---- *)
 VARIABLES ph, f, q, t
 vars == <<ph, f, q, t>>
@@ -125,25 +171,35 @@ DummyF == << [d |-> 0, n |-> <<>>, a |-> <<>>] >>
 Init ==
     CASE Part = "truth" -> ph = "b" /\ f = DummyF /\ q = DummyQ /\ t \in Bases
       [] Part = "struct" -> ph = "f" /\ f \in StructForests /\ q = DummyQ /\ t = NoTerm
+      [] Part = "reuse" -> ph = "o" /\ f = ReuseForest /\ q = DummyQ /\ t \in ReuseBases
+      [] Part = "fold" -> \/ ph = "b" /\ f = DummyF /\ q = DummyQ /\ t \in FoldAtoms
+                          \/ ph = "f" /\ f \in FoldForests /\ q = DummyQ /\ t = NoTerm
       [] OTHER -> ph = "f" /\ f \in AttrForests /\ q = DummyQ /\ t = NoTerm
 Next ==
     \/ /\ ph = "f" /\ ph' = "q" /\ f' = f /\ t' = t
-       /\ q' \in (IF Part = "struct" THEN StructQueries ELSE AttrQueries)
+       /\ q' \in (CASE Part = "struct" -> StructQueries [] Part = "fold" -> FoldQueries [] OTHER -> AttrQueries)
     \/ /\ ph = "b" /\ ph' = "t" /\ f' = f /\ q' = q
-       /\ t' \in Succ(t)
+       /\ t' \in (IF Part = "fold" THEN {t, Not(t)} \cup Pairs(t, FoldAtoms) ELSE Succ(t))
+    \/ /\ ph = "o" /\ ph' = "r" /\ f' = f /\ t' = t          \* q holds the combination step built from the object t
+       /\ q' \in ReuseSteps
 Spec == Init /\ [][Next]_vars
+
+TVals == IF Part = "fold" THEN FoldValues ELSE Values
 
 Recv == Docs(f)
 
 InvDocumentOrder == ph = "q" => DocumentOrder(f, Recv, q.qs, q.deep)
 InvRootsDedup    == ph = "q" => RootsDedup(f, Recv, q.qs, q.deep)
 InvExact         == ph = "q" => RaisingNeverMatches(f, Recv, q.qs, q.deep)
-InvAlgebra       == ph = "t" => \A i \in DOMAIN Values :
-                        /\ Algebra(t, Atom("eq", FALSE, X), Values[i])
-                        /\ Algebra(t, Not(Atom("lt", FALSE, IV(2))), Values[i])
-InvStrict        == ph = "t" => \A j \in DOMAIN Values : StrictLaw(t, Values[j])
-InvCaseless      == ph = "t" => \A i \in DOMAIN t : \A j \in DOMAIN Values :
-                        t[i].op = "atom" => CaselessLaw(t[i], Values[j])
+InvAlgebra       == ph = "t" => \A i \in DOMAIN TVals :
+                        /\ Algebra(t, Atom("eq", FALSE, X), TVals[i])
+                        /\ Algebra(t, Not(Atom("lt", FALSE, IV(2))), TVals[i])
+InvStrict        == ph = "t" => \A j \in DOMAIN TVals : StrictLaw(t, TVals[j])
+InvCaseless      == ph = "t" => \A i \in DOMAIN t : \A j \in DOMAIN TVals :
+                        t[i].op = "atom" => CaselessLaw(t[i], TVals[j])
+InvReuse         == ph = "r" => \A j \in DOMAIN Values : ReuseLaw(t, q.other, q.op, q.side, Values[j])
+InvFold          == ph = "t" => /\ \A j \in DOMAIN Values : FoldLaw(t, Values[j])
+                               /\ \A j \in DOMAIN TVals : FoldLaw(t, TVals[j]) /\ FoldLaw(Atom("eq", TRUE, BX), TVals[j])
 
 RECURSIVE SumTo(_, _)
 SumTo(g, n) == IF n = 0 THEN 0 ELSE g[n] + SumTo(g, n - 1)
@@ -159,7 +215,9 @@ Emit ==
     CASE ph = "q" /\ ~Sampled -> TRUE
       [] ph = "q" -> PrintT(<<"CASE", ToJson([part |-> Part, forest |-> f, qs |-> q.qs, deep |-> q.deep, roots |-> q.roots,
                                               expect |-> Select(f, Recv, q.qs, q.deep)])>>)
-      [] ph = "t" -> PrintT(<<"CASE", ToJson([part |-> Part, term |-> t, vals |-> Values,
-                                              expect |-> [i \in DOMAIN Values |-> Truth(t, Values[i])]])>>)
+      [] ph = "t" -> PrintT(<<"CASE", ToJson([part |-> Part, term |-> t, vals |-> TVals,
+                                              expect |-> [i \in DOMAIN TVals |-> Truth(t, TVals[i])]])>>)
+      [] ph = "r" -> PrintT(<<"CASE", ToJson([part |-> Part, base |-> t, op |-> q.op, side |-> q.side, other |-> q.other,
+                                              vals |-> Values, forest |-> f])>>)
       [] OTHER -> TRUE
 =============================================================================
